@@ -150,7 +150,7 @@ def trace_inputs(trace):
         kind = lhs[len('goto_symex$$return_value$$kv_in_'):]
         u = int(b, 2)
         w = len(b)
-        if kind in ('int', 'll') and u >= 1 << (w - 1):
+        if kind in ('int', 'll', 'char') and u >= 1 << (w - 1):
             u -= 1 << w
         vals.append(u)
     return vals
@@ -275,6 +275,7 @@ def run_query(q, shape, scratch_root, tier):
                 outp2 = os.path.join(sdir, 'out2.json')
                 rc2, _, _, _ = sh(cb2, timeout=tmo, mem_gb=q.get('mem_gb', 12), stdout_path=outp2)
                 p2 = parse_cbmc_json(outp2)
+                r.trace_inputs = {}      # sliced traces are not replayable
                 if p2[0] is not None:
                     for o in p2[0]:
                         if o.get('status') == 'FAILURE' and 'trace' in o:
